@@ -5,6 +5,7 @@ Used to (a) emit the `Cmds` constant of spec/CtlCommands.tla, from which TLC enu
 concrete command line plus the equivalent direct method call on the twin pool."""
 from __future__ import annotations
 
+import functools
 import inspect
 import os
 import sys
@@ -27,10 +28,11 @@ DOMAINS = {
     "args_iter": [("[(1,2),(3,4)]", L("[(1,2),(3,4)]")), ("[]", L("[]"))],
     "kwargs_iter": [("[{'a':1},{'a':2}]", L("[{'a':1},{'a':2}]")), ("[]", L("[]"))],
     "num": INTS, "num_concurrent": [("0", 0), ("1", 1), ("2", 2)], "value": INTS, "number": INTS,
-    "group_name": [("g1", "g1"), ("gx", "gx")], "msg": [("hello", "hello")], "label": [("lbl", "lbl")],
+    "group_name": [("g1", "g1"), ("gx", "gx"), ("a\tb", "a\tb")], "msg": [("hello", "hello")], "label": [("lbl", "lbl")],
+    "f": INTS, "el": [("kg", "kg")],
     "task_ids": [([], []), (["0"], [0]), (["0", "1"], [0, 1]), (["5"], [5]), (["0", "0"], [0, 0])],
     "group_names": [(["g1"], ["g1"]), (["g1", "start-group-0"], ["g1", "start-group-0"]), (["nosuch"], ["nosuch"]),
-                    ([], [])],
+                    ([], []), (["", "g1"], ["", "g1"])],
     "return_exceptions": [("", True)],
 }
 
@@ -60,6 +62,8 @@ def command_table(cls):
                     k = "opt"
                 params.append({"name": p.name, "kind": k})
             out.append({"name": dashed(name), "member": name, "kind": "method", "params": params})
+        elif isinstance(member, functools.cached_property):
+            out.append({"name": dashed(name), "member": name, "kind": "prop", "params": [], "settable": False})
         elif isinstance(member, property):
             c = {"name": dashed(name), "member": name, "kind": "prop", "params": [], "settable": member.fset is not None}
             if member.fset is not None:
